@@ -5,6 +5,7 @@ import SF.Props.C18
 #print axioms SF.C18.max_bounded
 #print axioms SF.C18.rsi_bounded
 #print axioms SF.C18.hln_bounded
+#print axioms SF.C18.laguerreRsi_bounded
 #print axioms SF.C18.laguerre_bounded
 #print axioms SF.C18.welford_bounded
 #print axioms SF.C18.vst_bounded
